@@ -269,13 +269,15 @@ func c10Specs(thorough bool) []c10Case {
 		for na := 0; na <= 2; na++ {
 			for ne := 0; ne <= 2; ne++ {
 				for _, menc := range encs {
-					for v := 0; v < 6; v++ {
-						if !thorough && v >= 3 {
-							break
-						}
+					nv := 6
+					if thorough {
+						nv = 48 // every text × 8 rotations of names / subjects / display names
+					}
+					for v := 0; v < nv; v++ {
 						n++
 						s := mb.Msg{Enc: menc}
 						t := texts[(n+v)%len(texts)]
+						n += v / len(texts) // rotate the name / subject pools as well
 						if menc == "usascii" {
 							t = texts[(n+v)%2] // 7bit bodies are ASCII
 						}
